@@ -84,9 +84,15 @@ def c04(tier, seed):
             grp('arg-shapes', 'VH_argShapes', [[]], cost=1, bound='nil / empty slices, empty strings', symbolic='none', asserts=['empty-list-errs'])]
 
 
+def g_nonascii(**kw):
+    return grp('non-ascii-spellings', 'VH_nonASCII', [[l, w] for l in ('active', 'deprecated', 'exception') for w in '012'], merge=['parse', 'inLicenseList'], cost=3,
+               bound='every listed id containing s/S or k/K, re-spelled with U+017F / U+212A (letters that case-fold to ASCII)',
+               symbolic='list index (choice variable); the bytes themselves are concrete', asserts=['non-ascii-spelling-rejected'], **kw)
+
+
 def c05(tier, seed):
     q = tier == 'quick'
-    return [g_parse_tokens(7 if q else 9), g_render(3 if q else 4)] + g_lex(tier, seed)
+    return [g_parse_tokens(7 if q else 9), g_render(3 if q else 4), g_nonascii()] + g_lex(tier, seed)
 
 
 def c13(tier, seed):
@@ -324,6 +330,7 @@ def kind_profiles(n, seed, rich):
     out.append(''.join('LPWD'[(i + seed) % 4] for i in range(n)))
     out.append(''.join('RrQO'[(i + seed) % 4] for i in range(n)))
     out.append(('Rr' + 'L' * n)[:n])
+    out.append(('RrR' + 'r' * n)[:n])
     if rich:
         out.append(''.join('DRLO'[(i + seed) % 4] for i in range(n)))
         out.append(''.join('WWPl'[(i + seed) % 4] for i in range(n)))
@@ -342,7 +349,7 @@ def ident_profiles(n, rich):
         out.append(''.join(str(i % 2) for i in range(n)))     # repetition 0101
     if n >= 3:
         out.append(''.join(str(i // 2) for i in range(n)))    # 0011
-    if rich and n >= 3:
+    if n >= 3:
         out.append('0' * n)
     return out
 
@@ -380,6 +387,16 @@ def sat_jobs(tier, seed, for_extract=False):
         add('n3-big-universe', 3, ['LLL', 'LPW', 'RLD', 'OlP', 'QWL', 'RrL', 'UlO', 'WQP'], ['012', '011', '001'], 'M', 2, 1, 0, 3)
         add('n4', 4, ['LLLL', 'RRRR', 'LRLR', 'RLLL', 'LLLR', 'LWPD', 'QOrR'], ['0123', '3210', '0101'], 'F', 3, 0, 1, 3)
         add('n5', 5, ['LLLLL'], ['01234', '01201'], 'F', 4, 0, 1, 5)
+    # wide expansions: many alternatives from few leaves
+    wide = ['|0|1|2|3|4|5|6|78', '&|0|12|3|45', '&|0|12|3|4|56', '|&01|&23|&45|&67|89', '&&|01|23|4|56', '||||||||012345678', '&|01&|23&|45|67']
+    wj = []
+    for enc in wide:
+        n = sum(ch.isdigit() for ch in enc)
+        idn = ''.join(str(i) for i in range(n))
+        for kinds in (['L' * n] if not thorough else ['L' * n, ('LR' * 5)[:n], ('LPW' * 4)[:n]]):
+            wj.append([enc, kinds, idn, 'M', 2, 0, 1] if not for_extract else [enc, kinds, idn, 'M'])
+            wj.append([enc, kinds, idn[::-1], 'F', 3, 0, 1] if not for_extract else [enc, kinds, idn[::-1], 'F'])
+    groups.append(('wide', wj, 9, 3, 6))
     return groups
 
 
